@@ -579,7 +579,9 @@ async fn run_inner(cfg: &Cfg, out: &mut Outcome) {
             let want_iso = cfg.isolated_strays && cfg.fault.is_none() && dispatch_alive && !eof_sent && script.is_empty() && rng.chance(1, 6);
             // (an extra poll would itself consume the k-th transport call of a pending fault plan)
             let fault_pending = cfg.fault.is_some() && st.borrow().fault_fired.is_none();
-            if cfg.control_polls && !fault_pending && dispatch_alive && script.is_empty() && (want_iso || rng.chance(1, 4)) {
+            // (after a fault that the dispatch survives, every idle point gets one: C09's "none hangs")
+            let after_fault = cfg.fault.is_some() && matches!(st.borrow().fault_fired, Some((op, _)) if op != Op::Eof);
+            if cfg.control_polls && !fault_pending && dispatch_alive && script.is_empty() && (want_iso || rng.chance(1, 4) || after_fault) {
                 let before_sent = st.borrow().sent.len();
                 let before_recv = st.borrow().recv.len();
                 let before_wakes: Vec<usize> = callers
@@ -605,6 +607,17 @@ async fn run_inner(cfg: &Cfg, out: &mut Outcome) {
                             vms(), before_sent, s.sent.len(), before_recv, s.recv.len(), before_lens, after_lens
                         ),
                     );
+                    if let Some((op, k)) = s.fault_fired {
+                        if op != Op::Eof {
+                            // C09 "none hangs ... failing to write one request fails only that call":
+                            // after the fault the dispatch sat on work until somebody else polled it
+                            out.viol(
+                                "C09",
+                                "stalled-after-fault",
+                                format!("after transport fault ({op:?}, {k}) the dispatch went idle with work it could do (an unsolicited poll at step {step} wrote {} items, read {}, tracked {:?}->{:?}): later calls wait for an unrelated wake-up", s.sent.len() - before_sent, s.recv.len() - before_recv, before_lens, after_lens),
+                            );
+                        }
+                    }
                 }
             }
             // isolated stray delivery (C01): only stimulus, clock stopped
@@ -1365,6 +1378,15 @@ fn final_oracles(
                         c.body, c.d_ms, info.is_some(), now, c.polls, dispatch_alive, dres
                     ),
                 ));
+                // C09: after any transport fault no call may hang - in particular a failed request
+                // write "fails only that call", the others go on
+                if fault.is_some() && !matches!(fault, Some((Op::Eof, _))) {
+                    out.viols.push(Viol::new(
+                        "C09",
+                        "call-hangs-after-fault",
+                        format!("transport fault {fault:?} fired (fatal={fatal_fault}); call {} (transmitted={}) is still pending at quiescence, dispatch alive={dispatch_alive} result={dres:?}", c.body, info.is_some()),
+                    ));
+                }
             }
             Res::Ok(b) | Res::ServerErr(b) => {
                 any_reply = true;
